@@ -150,17 +150,27 @@ pub struct ByteReader<'a> {
     pub data: &'a [u8],
     pub pos: usize,
     pub end: usize,
+    /// report end-of-stream as an error value instead of a 0-byte read
+    pub hard_eof: bool,
 }
 
 impl<'a> ByteReader<'a> {
     pub fn new(data: &'a [u8], end: usize) -> Self {
-        Self { data, pos: 0, end }
+        Self { data, pos: 0, end, hard_eof: false }
+    }
+
+    pub fn hard(data: &'a [u8], end: usize) -> Self {
+        Self { data, pos: 0, end, hard_eof: true }
     }
 }
 
 impl<'a> std::io::Read for ByteReader<'a> {
     fn read(&mut self, buf: &mut [u8]) -> std::io::Result<usize> {
-        let avail = self.end - self.pos;
+        let lim = if self.end < self.data.len() { self.end } else { self.data.len() };
+        let avail = if lim > self.pos { lim - self.pos } else { 0 };
+        if avail == 0 && !buf.is_empty() && self.hard_eof {
+            return Err(std::io::Error::from(std::io::ErrorKind::UnexpectedEof));
+        }
         let n = if buf.len() < avail { buf.len() } else { avail };
         let mut i = 0;
         while i < n {
